@@ -480,4 +480,15 @@ pub mod props {
         }
     }
 //@@ end
+
+//@@ lemma
+//@@ unit lemma.C14.hidden_items_offer_no_candidates tags=C14,C12
+    /// C14 "hidden items ... do not appear": whatever a parser under `hide` would offer as a completion candidate is dropped - after
+    /// it ran, the candidate list is what it was before (ParseHide::eval is proved to refine this relation, with the real
+    /// swap_comps_with / Complete::swap_comps bodies)
+    pub proof fn lemma_c14_hidden<T, P: Parser<T>>(h: ParseHide<P>, pre: State, r: Result<T, Error>, post: State)
+        requires h.rel(pre, r, post),
+        ensures same_candidates(pre, post), // #candidate_list_unchanged_by_a_hidden_parser
+    {}
+//@@ end
 }
